@@ -189,7 +189,7 @@ FACETS = [
           nontrivial=nontriv_value, classify=lambda c: ("n=%d" % c["n"],),
           shards={"quick": 8, "thorough": 16},
           rule="every size 0..13 (0..16 thorough) and every value: all constructors, all conversions, all round trips"),
-    Facet("wide-sampled", check_value, strategy=wide_strategy, budget={"quick": 600, "thorough": 12000},
+    Facet("wide-sampled", check_value, strategy=wide_strategy, budget={"quick": 1500, "thorough": 12000},
           nontrivial=nontriv_value,
           classify=lambda c: ("n%8==0" if c["n"] % 8 == 0 else "n%8!=0", "n>256" if c["n"] > 256 else "n<=256"),
           rule="sizes 17..2048 biased to 2^k-1, 2^k, 2^k+1; values uniform / special (2^k, 2^k +-1, masks)"),
@@ -197,7 +197,7 @@ FACETS = [
           nontrivial=nontriv_load, classify=lambda c: ("order=%s" % ("k" if c["order"] > 1 else c["order"]),),
           shards={"quick": 2, "thorough": 16},
           rule="every byte string of length <= 1 (<= 2 thorough) x every admissible bit order x size in {None,1,8|s|-3,8|s|+3}"),
-    Facet("bytes-load", check_load, strategy=load_strategy, budget={"quick": 6000, "thorough": 120000},
+    Facet("bytes-load", check_load, strategy=load_strategy, budget={"quick": 12000, "thorough": 120000},
           nontrivial=nontriv_load,
           classify=lambda c: ("order=%s" % ("k" if c["order"] > 1 else c["order"]),
                               "size=None" if c["size"] is None else "size<8|s|" if c["size"] < 8 * len(c["s"]) else "size>=8|s|",
